@@ -8,6 +8,8 @@ THEOREMS = ['C13_wsa_counts', 'C13_overflow_mark', 'C13_no_overflow_is_exact', '
 THEOREMS += ['C13_kernel_source_is_model', 'C13_source_counts', 'C13_capture_cpu_source_is_model', 'C13_capture_gpu_source_is_model']   # source tie of the merge kernel (Gen/WaveEvalSrc.v)
 
 
+THEOREMS += ['C13_driver_accumulate_is_model', 'C13_driver_capture_is_model']   # driver code from the source text (Gen/WaveDriversSrc.v)
+
 def oracle(k, w):
     for lane in range(k.sims):
         m = wo.check_capture(w, lane, k.tcap)
@@ -111,6 +113,7 @@ def ovf_pin_stress(ck, n):
 
 def run(ck):
     wk.regen_kernel(ck)
+    wk.regen_drivers(ck)
     if THEOREMS:
         ck.prove('C13', THEOREMS)
     fails, mism = wk.campaign(ck, ck.scale(40, 1200), oracle, gen_kw={'with_actrl': True, 'allow_dangling': False, 'strip_prob': 0.3}, coq_lanes=1, coq_every=2, stress_every=3, line_level=True, glue=True)
